@@ -63,7 +63,8 @@ def run(ctx):
         reads = keys.reads_of(ka, P, ["propagate_free"], "ham_data")
         w = keys.writes_of(ka, P, "_build_propagation_intermediates", "ham_data")
         inputs = input_ham_keys(ctx)
-        missing = sorted(k for k in reads if k not in w and k not in inputs)
+        tk = keys.trial_built_keys(ka)
+        missing = sorted(k for k in reads if k not in w and k not in inputs and k not in tk)
         ctx.ob("KEYS-1", f"{P}: ham_data keys read by propagate_free are built", not missing,
                f"read but never written: {missing}" if missing else f"reads {sorted(reads)}", step)
         preads = keys.reads_of(ka, P, ["propagate_free"], "prop_data")
@@ -268,6 +269,7 @@ def estimator(ctx):
         ctx.ob("WMEAN-1", f"{fi.qualname}: returns (carry, (state, energy, weight))", False, "unmodelled", fi)
         return
     _, be, bw = R.args[1].args
+    be, bw = ts.assume_loops_ran(be), ts.assume_loops_ran(bw)      # `if n_prop_steps > 0:` around the step loop
     wm = common.wmean(be)
     if wm is None:
         ctx.ob("WMEAN-1", f"{fi.qualname}: block energy is sum(E*O)/sum(O)", False,
